@@ -221,6 +221,16 @@ PartialFieldItems(P, inj) ==
      /\ \E n \in DOMAIN P.leaves[inj.items[j].i].names : FieldNameUsed(P, inj, j, n)
      /\ \E n \in DOMAIN P.leaves[inj.items[j].i].names : ~FieldNameUsed(P, inj, j, n)}
 
+\* a struct provider that must set an unexported field of a struct declared in another package than the injector's:
+\* the generated literal cannot name that field.  The documentation does not say whether Wire refuses or skips it;
+\* C01 only demands that what is reported as success compiles, so the verdict is left open ("free").
+IsExportedName(n) == \E c \in {"A", "B", "C", "D", "E", "F", "G", "X", "Y", "Z"} : \E rest \in {"", "1", "2"} : n = c \o rest
+ForeignUnexported(P, inj) ==
+  \E u \in NeededLeafSrcs(P, inj) :
+    /\ u.k = "leaf" /\ P.leaves[u.i].k = "struct"
+    /\ AtomOf(P, P.leaves[u.i].s).pkg # inj.pkg
+    /\ \E i \in DOMAIN SelNames(P, P.leaves[u.i]) : ~IsExportedName(SelNames(P, P.leaves[u.i])[i])
+
 InjSigOK(inj) == ResOK(ResOf(inj))
 
 \* Why Wire must refuse the injector; {} = it must accept.
@@ -237,7 +247,7 @@ Reasons(P, inj) ==
 Verdict(P, inj) ==
   LET r == Reasons(P, inj) IN
   IF r # {} THEN "no"
-  ELSE IF PartialFieldItems(P, inj) # {} THEN "free" ELSE "yes"
+  ELSE IF PartialFieldItems(P, inj) # {} \/ ForeignUnexported(P, inj) THEN "free" ELSE "yes"
 Accept(P, inj) == Verdict(P, inj) = "yes"
 
 (* ---- wiring: which source feeds which consumer ---------------------------- *)
